@@ -71,6 +71,9 @@ def atom_axioms(ctx, text):
             for lit, c in list(ATOMS[sname].items()):
                 if k[0] == "lower":
                     out.append(f(c) == atom_const(sort, lit.lower()))
+                elif k[0] == "match":
+                    import re
+                    out.append(f(c) == z3.BoolVal(re.match(k[2], lit) is not None))
                 else:
                     out.append(f(c) == z3.BoolVal(lit.startswith(k[2])))
         cs = list(ATOMS[sname].values())
